@@ -16,3 +16,24 @@ Definition w_buy (app pair : Z) : order_msg := mkOMsg app 50 pair true true 2 10
 Definition w_cancel_ops : list op :=
   [OCreatePair 1 90 1 2; OLimit (w_buy 1 1) 10; OEnd 2 11 []; OBegin; OCancel 1 50 1 1].
 Definition w_cancel_state : state := fold_left apply_op w_cancel_ops (fold_left apply_op (w_setup 1) init).
+
+(* two limit buys by different owners; the first is cancelled after one batch, the second stays live *)
+Definition w_buy2 : order_msg := mkOMsg 1 51 1 true true 2 2006 1 1000000000000000000 2000 100.
+Definition w_two_ops : list op :=
+  [OCreatePair 1 90 1 2; OLimit (w_buy 1 1) 10; OLimit w_buy2 10; OEnd 2 11 []; OBegin].
+Definition w_two_state : state := fold_left apply_op w_two_ops (fold_left apply_op (w_setup 1) init).
+Definition w_two_cancelled : state := apply_op w_two_state (OCancel 1 50 1 1).
+
+(* the witness of C07-F1 (repaired): app 2 / pair 1, ten market-making sell ticks, cancelled in the next batch *)
+Definition w_mm : mm_msg := mkMMsg 2 50 1 1200000000000000000 1000000000000000000 3000 0 0 0 100.
+Definition w_mm_ops : list op := [OCreatePair 2 90 1 2; OMM w_mm 10; OEnd 2 11 []; OBegin].
+Definition w_mm_state : state := fold_left apply_op w_mm_ops (fold_left apply_op (w_setup 2) init).
+Definition w_mm_cancelled : state := apply_op w_mm_state (OCancelMM 2 50 1).
+
+(* the escrow clause depends on the recorded fills conserving coins: an ENV batch in which a buy order
+   receives 500 base coins while paying nothing takes them out of the seller's escrowed offer *)
+Definition w_sell : order_msg := mkOMsg 1 51 1 false true 1 1003 2 1000000000000000000 1000 100.
+Definition w_bad_batch : batch_env := mkBatch 1 true 1000000000000000000 [(1, 500, 0, 500)] [] 0.
+Definition w_bad_ops : list op :=
+  [OCreatePair 1 90 1 2; OLimit (w_buy 1 1) 10; OLimit w_sell 10; OEnd 2 11 [mkAppEnv 1 [w_bad_batch] [] []]].
+Definition w_bad_state : state := fold_left apply_op w_bad_ops (fold_left apply_op (w_setup 1) init).
